@@ -2,6 +2,11 @@ import NomtModel.Driver.CoreMode
 import NomtModel.Driver.ApiMode
 import NomtModel.Driver.ImageMode
 import NomtModel.Driver.AllocMode
+import NomtModel.Driver.LocksMode
+import NomtModel.Driver.WalImage
+import NomtModel.Driver.OvlMode
+import NomtModel.Driver.BitOpsMode
+import NomtModel.Driver.SeglogMode
 /-!
 `nomt_model`: the executable Lean model behind a line protocol.
 First argument selects the sub-protocol; stdin → stdout, one output line per input line.
@@ -23,4 +28,9 @@ def main (args : List String) : IO UInt32 := do
   | ["api"] => loop stdin stdout apiStep { root := zeros32 }; return 0
   | ["image"] => imageLoop stdin stdout; return 0
   | ["alloc"] => loop stdin stdout allocStep (); return 0
+  | ["locks"] => loop stdin stdout locksStep locksInit; return 0
+  | ["wal"] => walLoop stdin stdout; return 0
+  | ["ovl"] => loop stdin stdout ovlStep {}; return 0
+  | ["bitops"] => loop stdin stdout bitopsStep (); return 0
+  | ["seglog"] => loop stdin stdout SegD.seglogStep {}; return 0
   | _ => IO.eprintln "usage: nomt_model <core|...>"; return 2
